@@ -736,7 +736,15 @@ class SMCSamples(BaseSamples):
             log_evidence_error=self.log_evidence_error
             if self.log_evidence_error is not None
             else None,
+            dtype=convert_dtype(self.dtype, np),
         )
+
+    def to_namespace(self, xp, dtype: Any | str | None = None):
+        samples = super().to_namespace(xp, dtype=dtype)
+        samples.beta = self.beta
+        samples.log_evidence = self.log_evidence
+        samples.log_evidence_error = self.log_evidence_error
+        return samples
 
     def __getitem__(self, idx):
         sliced = super().__getitem__(idx)
